@@ -51,9 +51,17 @@ func opMain(p, o int64) sx.Tree       { return sx.Ints(4, p, o) }
 func opRefresh() sx.Tree              { return sx.Ints(6) }
 func opRevoke() sx.Tree               { return sx.Ints(8) }
 func opCrash() sx.Tree                { return sx.Ints(12) }
+func opHandoff() sx.Tree              { return sx.Ints(16) } // like a crash, but the successor is a peer that saw every broadcast
 func opRecCrash(p int64) sx.Tree      { return sx.Ints(14, p) }
 func opRequest(p, f, t int64) sx.Tree { return sx.Ints(9, p, f, t) }
 func opSetOwned(ps []int64) sx.Tree   { return sx.T(sx.L(7), sx.Ints(ps...)) }
+func crashOrHandoff(r *sx.Rng) sx.Tree {
+	if r.Chance(45) {
+		return opHandoff()
+	}
+	return opCrash()
+}
+
 func opKErr(code int64, wmerr bool, lows [][2]int64) sx.Tree {
 	l := []sx.Tree{}
 	for _, x := range lows {
@@ -204,7 +212,7 @@ func genScenario(r *sx.Rng, focus string) sx.Tree {
 				setOwned()
 				ops = append(ops, opRefresh())
 			case 1:
-				ops = append(ops, opCrash())
+				ops = append(ops, crashOrHandoff(r))
 				setOwned()
 				ops = append(ops, opRefresh())
 			}
@@ -234,7 +242,7 @@ func genScenario(r *sx.Rng, focus string) sx.Tree {
 				if r.Chance(35) {
 					ops = append(ops, opRecCrash(w.p)) // stops while handling the next record of w.p
 				} else {
-					ops = append(ops, opCrash())
+					ops = append(ops, crashOrHandoff(r))
 				}
 				if r.Chance(90) {
 					setOwned()
@@ -306,6 +314,46 @@ func genScenario(r *sx.Rng, focus string) sx.Tree {
 			}
 		}
 	}
+	second := 15
+	if focus == "C07" || focus == "C09" {
+		second = 30
+	}
+	if r.Chance(second) {
+		// a second round on a partition whose request is (mostly) complete by now: the next request for it arrives over
+		// the tracking topic (a peer filed it), often small enough to complete without any progress broadcast in between
+		w := wins[r.Intn(len(wins))]
+		if r.Chance(80) {
+			ops = append(ops, opPump(w.p, w.t-w.f+3))
+		}
+		f2 := w.t + r.Range(0, 30)
+		size2 := r.Range(1, every+2)
+		if r.Chance(20) {
+			size2 = r.Range(1, 40)
+		}
+		ops = append(ops, sx.T(sx.L(11), sx.T(sx.L(1), sx.L(w.p), sx.T(sx.Ints(f2, f2+size2)))))
+		if r.Chance(90) {
+			ops = append(ops, opRefresh())
+		}
+		if r.Chance(30) {
+			ops = append(ops, opPump(w.p, r.Range(1, size2)))
+		}
+		ops = append(ops, opPump(w.p, size2+3))
+		if r.Chance(30) { // and a third, filed locally
+			f3 := f2 + size2 + r.Range(0, 5)
+			ops = append(ops, opRequest(w.p, f3, f3+r.Range(1, every+2)), opRefresh(), opPump(w.p, every+6))
+		}
+	}
+	if r.Chance(22) {
+		// a hand-off after (most) requests are complete: the successor must not recover anything that was completed
+		ops = append(ops, crashOrHandoff(r))
+		setOwned()
+		ops = append(ops, opRefresh())
+		for _, w := range wins {
+			if r.Chance(60) {
+				ops = append(ops, opPump(w.p, r.Range(1, 6)))
+			}
+		}
+	}
 	return sx.T(sx.L(0), sx.Ints(maxrec, every, r.Range(0, 100)), sx.T(ops...))
 }
 
@@ -355,7 +403,7 @@ func genChaos(r *sx.Rng, focus string) sx.Tree {
 			case 0:
 				ops = append(ops, opRevoke())
 			case 1:
-				ops = append(ops, opCrash())
+				ops = append(ops, crashOrHandoff(r))
 			default:
 				ops = append(ops, opRecCrash(part()))
 			}
